@@ -192,8 +192,17 @@ def covers_shape(m, shape):
 
 
 class World(object):
-  def __init__(self, topo="T1", variant=0):
+  def __init__(self, topo="T1", variant=0, opt=None):
     t = TOPOS[topo]
+    # launch options of l2_learning (spec: opt.hold / opt.transp), handed over the way a command line
+    # (strings) or a python caller (int / bool) would, by variant
+    self.opt = dict(hold=0, transp=False)
+    self.opt.update(opt or {})
+    cli = (variant // 3) % 2 == 1
+    self.launch_args = dict(
+        hold_down=str(self.opt["hold"]) if cli else self.opt["hold"],
+        transparent=(["True", "yes", "on"] if self.opt["transp"] else ["False", "no", "off"])[variant % 3]
+        if cli else bool(self.opt["transp"]))
     self.topo = topo
     self.t = t
     v = variant
@@ -209,7 +218,8 @@ class World(object):
     dp = DPIDS[(k + r) % 4]
     self.sim = ns.NetSim(nsw=t["nsw"], nports=t["nports"], links=t["links"],
                          max_buffers=self.max_buffers, seg=self.seg,
-                         dpids=[dp(s) for s in range(1, t["nsw"] + 1)])
+                         dpids=[dp(s) for s in range(1, t["nsw"] + 1)],
+                         transparent=self.launch_args["transparent"], hold_down=self.launch_args["hold_down"])
     self.at = dict(t["at"])
     self.nhosts = t["hosts"]
     self.mac2sym = {}
@@ -222,6 +232,7 @@ class World(object):
 
   def describe(self):
     return dict(topo=self.topo, variant=self.variant, max_buffers=self.max_buffers, seg=self.seg,
+                launch=dict((k, repr(v)) for k, v in self.launch_args.items()),
                 macs=[self.macf(h) for h in range(1, self.nhosts + 1)],
                 special={str(k): v for k, v in self.special.items()},
                 shapes={k: (hex(v["et"]), len(v["payload"]), v["vlan"]) for k, v in self.shapes.items()})
@@ -305,7 +316,9 @@ class World(object):
     if a == "Send":
       s, p = self.at[args["h"]]
       fr = self.frame(args["h"], args["dst"], args["sh"])
-      hops = self.sim.inject(s, p, fr)
+      # (a transparent bridge forwards LLDP frames; POX re-serialises the parsed LLDPDU, which ends at its End
+      #  TLV, so the Ethernet padding behind it is not content)
+      hops = self.sim.inject(s, p, fr, content=14 + len(self.shapes["l"]["payload"]) if args["sh"] == "l" else None)
       obs = []
       anomalies = []
       for hp in hops:
@@ -342,14 +355,17 @@ def run_behaviour(item):
   at = item.get("at") or [list(t["at"][h]) for h in range(1, t["hosts"] + 1)]
   # hosts the behaviour does not place stay where the topology puts them
   at = at + [list(t["at"][h]) for h in range(len(at) + 1, t["hosts"] + 1)]
+  opt = dict(hold=0, transp=False)
+  opt.update(item.get("opt") or {})
+  at_args = dict(at=at, hold=int(opt["hold"]), transp=bool(opt["transp"]))
   try:
-    w = World(topo, item.get("variant", 0))
+    w = World(topo, item.get("variant", 0), opt)
   except ns.HandshakeFailed as e:
     # the network never came up: no frame can be forwarded at all
-    return dict(trace=[dict(a="At", args=dict(at=at), obs={}, wf=False,
+    return dict(trace=[dict(a="At", args=at_args, obs={}, wf=False,
                             why="handshake-failed", detail=str(e)[:200])], agree=False,
                 world=dict(topo=topo, variant=item.get("variant", 0)))
-  trace = [dict(a="At", args=dict(at=at), obs={}, wf=True)]
+  trace = [dict(a="At", args=at_args, obs={}, wf=True)]
   w.step("At", dict(at=at))
   agree = True
   for st in item["steps"]:
@@ -407,8 +423,8 @@ class ReplayAdapter(object):
   LearningNet.tla predicts (the check itself decides with the property layer
   through TLC; this is the quick way to see a failure again / gone)."""
 
-  def __init__(self, topo="T1", variant=0, at=None):
-    self.w = World(topo, variant)
+  def __init__(self, topo="T1", variant=0, at=None, opt=None):
+    self.w = World(topo, variant, opt)
     if at:
       self.w.step("At", dict(at=at))
 
